@@ -51,6 +51,8 @@ def rn(e):
     if k == "bin":
         return "(%s%s%s)" % (rn(e["l"]), e["op"], rn(e["r"]))
     if k == "un":
+        if e.get("op") == "*":
+            return "%s[0]" % rn(e["e"])          # *p and p[0] are the same access
         return "%s%s" % (e.get("op"), rn(e["e"]))
     if k == "call":
         nm = e.get("name") or "?"
